@@ -99,7 +99,7 @@ if __name__ == '__main__':
         names = sys.argv[2:] or sorted(os.listdir(os.path.join(ROOT, 'seeded')))
         for n in names:
             dst = os.path.join(ROOT, 'seeded', n)
-            if not os.path.exists(os.path.join(dst, 'patch.diff')):
+            if not os.path.exists(os.path.join(dst, 'patch.diff')) or n.startswith('harmless'):
                 continue
             r = run_check(dst)
             for p, v in r.items() if 'error' not in r else []:
